@@ -15,7 +15,7 @@ VARIABLE hist
 gvars == <<vars, hist>>
 
 NoB == [op |-> "none", g |-> 0, pre |-> 0]
-Rec(o, g, p) == [op |-> o, g |-> g, pre |-> p, ids |-> <<>>, b |-> NoB, first |-> "a"]
+Rec(o, g, p) == [op |-> o, g |-> g, pre |-> p, ids |-> <<>>, pres |-> <<>>, b |-> NoB, first |-> "a"]
 
 Apply(post) == /\ store' = post.store /\ hidx' = post.hidx
                /\ count' = post.count /\ last' = post.last
@@ -48,7 +48,14 @@ GenRestart ==
 GenFork(anc, ids) ==
   /\ pc = "idle" /\ store[anc].present
   /\ Apply(ForkPost(store, hidx, count, last, anc, ids))
-  /\ hist' = Append(hist, [op |-> "Fork", g |-> anc, pre |-> 0, ids |-> ids, b |-> NoB, first |-> "a"])
+  /\ hist' = Append(hist, [op |-> "Fork", g |-> anc, pre |-> 0, ids |-> ids, pres |-> [i \in 1..Len(ids) |-> 98], b |-> NoB, first |-> "a"])
+
+(* a fork that is not a line: its second group names the common ancestor, the genesis group or
+   itself... anything but the first group of the fork *)
+GenForkBent(anc, ids, p2) ==
+  /\ pc = "idle" /\ store[anc].present /\ Len(ids) = 2 /\ p2 # ids[1]
+  /\ Apply(ForkPostP(store, hidx, count, last, anc, ids, <<98, p2>>))
+  /\ hist' = Append(hist, [op |-> "Fork", g |-> anc, pre |-> 0, ids |-> ids, pres |-> <<98, p2>>, b |-> NoB, first |-> "a"])
 
 (* two overlapping calls (see GroupChain!ConcPost): an add against an add or a removal *)
 GenConc(g, p, b, first) ==
@@ -56,7 +63,7 @@ GenConc(g, p, b, first) ==
   /\ p \in AllIds /\ store[p].present
   /\ (b.op = "Add" => (b.pre \in AllIds /\ store[b.pre].present))
   /\ Apply(ConcPost(store, hidx, count, last, [g |-> g, pre |-> p], b, first, Early).r)
-  /\ hist' = Append(hist, [op |-> "Conc", g |-> g, pre |-> p, ids |-> <<>>, b |-> b, first |-> first])
+  /\ hist' = Append(hist, [op |-> "Conc", g |-> g, pre |-> p, ids |-> <<>>, pres |-> <<>>, b |-> b, first |-> first])
 ConcBs == {[op |-> "Remove", g |-> 0, pre |-> 0]} \cup {[op |-> "Add", g |-> g, pre |-> p] : g \in Ids, p \in AllIds}
 
 ForkSeqs == {<<a>> : a \in Ids} \cup {s \in Ids \X Ids : s[1] # s[2]}
@@ -65,6 +72,7 @@ GenNext ==
   /\ Len(hist) < Depth
   /\ \/ \E g \in Ids : GenAdd(g)
      \/ \E anc \in AllIds, ids \in ForkSeqs : Forks /\ GenFork(anc, ids)
+     \/ \E anc \in AllIds, ids \in ForkSeqs, p2 \in AllIds : Forks /\ Len(hist) = Depth - 1 /\ GenForkBent(anc, ids, p2)
      \/ \E g \in Ids, p \in AllIds, b \in ConcBs, first \in {"a", "b"} : Concs /\ GenConc(g, p, b, first)
      \/ \E g \in Ids, p \in AllIds : GenAddRejected(g, p)
      \/ GenRemove
